@@ -16,9 +16,10 @@ def run(tier):
         beh += beh1
     # free-value routing (multi-value argument / flag / positional) needs three uses: own run with MaxUses = 3
     if tier == "thorough":
-        cfgs2, beh2 = model_behaviours(c, tier, cfgsel=[16], maxuses=3)
+        cfgs2, beh2 = model_behaviours(c, tier, cfgsel=[15, 16], maxuses=3)
     else:
-        cfgs2, beh2 = model_behaviours(c, tier, cfgsel=[16], maxuses=2)
+        # 15: the standard argument --endvalues: any number of markers in a line, a positional value behind a marker
+        cfgs2, beh2 = model_behaviours(c, tier, cfgsel=[15, 16], maxuses=2)
     beh += beh2
     # sub-groups (configuration 22): a sub-group next to arguments of the main handler, one key in both; two uses per line
     # (a use of the sub-group carries up to two uses of its own)
@@ -33,17 +34,17 @@ def run(tier):
     ncfg, nlines = (80, 8) if tier == "quick" else (2500, 12)
     blocks = []
     for _ in range(ncfg):
-        cfg = g.cfg(nargs=g.r.randint(5, 12), constraints=True)
+        cfg = g.cfg(nargs=g.r.randint(5, 12), constraints=True, endvalues=0.34)
         acts = []
         for _ in range(nlines):
-            line = gen_valid(g, cfg)
+            line = g.with_markers(cfg, gen_valid(g, cfg))
             if line is None:
                 continue
             acts.append(eval_action(g.spell_line(cfg, line), tag={"k": "line", "line": line_json(line)}))
         blocks.append((cfg, acts))
     # T1b: which argument gets a free value: multi-value arguments, flags, valued arguments and a positional in every order
     for _ in range(100 if tier == "quick" else 1500):
-        cfg = g.cfg(nargs=g.r.randint(3, 5), kinds=["flag", "int", "vecint", "vecstr", "listint"], constraints=False, allow_pos=False)
+        cfg = g.cfg(nargs=g.r.randint(3, 5), kinds=["flag", "int", "vecint", "vecstr", "listint"], constraints=False, allow_pos=False, endvalues=0.5)
         for a in cfg["args"]:
             if arggen.is_cont(a["kind"]):
                 a["multi"] = True
@@ -52,7 +53,7 @@ def run(tier):
         cfg["args"].append(p)
         acts = []
         for _ in range(nlines):
-            line = gen_valid(g, cfg)
+            line = g.with_markers(cfg, gen_valid(g, cfg))
             if line is None:
                 continue
             acts.append(eval_action(g.spell_line(cfg, line), tag={"k": "line", "line": line_json(line)}))
